@@ -1,6 +1,6 @@
 //! pvh_pipeline -- harness binary of the `pipeline` group (C02 C03 C13 C18).
 //!
-//!   gen    <out.ndjson> <seed> <n_mut> <n_soup> <n_nest> <n_fault> <n_multi> [<n_line> <n_struct>]
+//!   gen    <out.ndjson> <seed> <n_mut> <n_soup> <n_nest> <n_fault> <n_multi> [<n_line> <n_struct> <extra 0|1>]
 //!   render-flat <items.ndjson> <cases.ndjson>     statement-placement bodies -> cases
 //!   worker [--ir-dir D]              cases on stdin, events on stdout (flushed per event)
 //!   run    <cases.ndjson> <events.ndjson> [--ir-dir D] [--timeout S] [--batch N]
@@ -465,8 +465,8 @@ fn main() {
             }
             let root = std::env::var("PENNE_REPO").unwrap_or_else(|_| "/repo".to_string());
             let mut n: Vec<usize> = args[3..].iter().map(|x| x.parse().expect("count")).collect();
-            n.resize(7, 0);
-            let cases = r#gen::generate(std::path::Path::new(&root), args[2].parse().expect("seed"), n[0], n[1], n[2], n[3], n[4], n[5], n[6]);
+            n.resize(8, 0);
+            let cases = r#gen::generate(std::path::Path::new(&root), args[2].parse().expect("seed"), n[0], n[1], n[2], n[3], n[4], n[5], n[6], n[7]);
             let mut f = std::io::BufWriter::new(std::fs::File::create(&args[1]).expect("create"));
             for c in &cases {
                 writeln!(f, "{c}").unwrap();
